@@ -369,7 +369,7 @@ Proof.
   unfold format_aggregate in H.
   destruct (t_rows t) as [|d0 rows] eqn:Erows; [contradiction|].
   destruct (fold_left (fun rw d => do w0 <- rw; update_widths w0 d) (d0 :: rows)
-                      (Ok (pp_widths (mkPP ws (Some (w, h)))))) as [w1| | |] eqn:Ew;
+                      (Ok (@nil (str * nat)))) as [w1| | |] eqn:Ew;
     cbn [bind] in H; try discriminate.
   cbn [pp_term max_width] in H.
   set (w2 := resize_widths w1 (t_cols t) w) in *.
